@@ -451,7 +451,8 @@ def rand_trace(ctx_seed, fn, dtype_name, cls, n, noise, bshape, seeds):
     pp = pypose()
 
     def call(a, b):
-        r = getattr(pp, fn)(a, b)
+        # "svdstf_rigid" = svdstf(with_scale=False): documented as scale = 1, i.e. the class of rigid transforms
+        r = pp.svdstf(a, b, with_scale=False) if fn == "svdstf_rigid" else getattr(pp, fn)(a, b)
         return r.tensor().detach(), r.unsqueeze(-2).Act(a).detach(), r.matrix().detach()
 
     k = len(seeds)
@@ -491,7 +492,7 @@ def rand_trace(ctx_seed, fn, dtype_name, cls, n, noise, bshape, seeds):
 def rand_traces(ctx, per):
     traces = []
     sizes = [3, 4, 5, 8, 20, 50, 200]
-    for fn in FNS:
+    for fn in FNS + ["svdstf_rigid"]:
         for dtype_name in ("float64", "float32"):
             for cls in ("generic", "planar", "collinear", "duplicated", "minimal"):
                 for noise in (0.0, 0.001, 0.05, 0.5):
@@ -600,8 +601,12 @@ def icp_trace(kind, dtype_name, steps, seeds):
                     except Exception:
                         pass
                 r = shared(xs, ys)
-            elif seed % 2:
+            elif seed % 3 == 1:
                 r = pp.module.ICP(stepper=stepper)(xs, ys, init=it)      # per-call init
+            elif seed % 3 == 2:
+                # a (far) constructor init that the documented per-call init suppresses
+                far = pp.SE3(torch.tensor([-35.0, 25.0, 30.0, 0.6, 0.0, 0.8, 0.0], dtype=dt))
+                r = pp.module.ICP(init=far, stepper=stepper)(xs, ys, init=it)
             else:
                 r = pp.module.ICP(init=it, stepper=stepper)(xs, ys)      # constructor init
         except Exception as ex:
